@@ -13,7 +13,7 @@ def queries():
     qs = []
     for n in range(0, 9):
         for lb in (0, 4, 8):
-            quick = (lb == 0 and n in (0, 1, 2, 3, 4)) or (lb == 4 and n in (3, 4, 6))
+            quick = (lb == 0 and n in (0, 1, 2, 3, 4)) or (lb == 4 and n in (3, 4))
             qs.append(Q('b64_n%d_lb%d' % (n, lb), 'h_base64', 'base64: encode == RFC 4648, decode(encode(m)) == m; message length %d, line_break %d, all byte values' % (n, lb),
                         ['N=%d' % n, 'LB=%d' % lb], ['base64.cpp'], quick=quick, weight=n))
     for n in range(0, 6):
@@ -27,7 +27,7 @@ def queries():
             qs.append(Q('split_p%d_s%d' % (parts, seplen), 'h_split', 'split(%s sep, join(parts)) == parts and limit semantics; %d parts of length 0..2 over {sep bytes, a, NUL, 0xFF}' % ('char' if seplen == 1 else '2-byte string', parts),
                         ['NPARTS=%d' % parts, 'SEPLEN=%d' % seplen, 'M=2'], ['split.cpp'], quick=parts <= 2, weight=parts * 4, extra_ll2c=['--unreachable', '_M_realloc_insert']))
         qs.append(Q('quoted_p%d' % parts, 'h_quoted', 'split_quoted(join_quoted(v)) == v; %d fields of length 0..2 over {space, quote, backslash, newline, tab, a, n}' % parts,
-                    ['NPARTS=%d' % parts, 'M=2'], ['join_quoted.cpp', 'split_quoted.cpp'], quick=parts <= 2, weight=parts * 4 + 20, timeout=3600 if parts <= 2 else 14400, extra_ll2c=['--model-string-vector-growth', '4']))
+                    ['NPARTS=%d' % parts, 'M=2'], ['join_quoted.cpp', 'split_quoted.cpp'], quick=parts <= 1, weight=parts * 4 + 20, timeout=3600 if parts <= 1 else 14400, extra_ll2c=['--model-string-vector-growth', '4']))
     for n, m in ((0, 0), (1, 1), (2, 1), (3, 1), (3, 2), (4, 2), (4, 3)):
         quick = (n, m) in ((0, 0), (2, 1), (3, 2))
         qs.append(Q('helpersA_n%d_m%d' % (n, m), 'h_helpers_a', 'replace_first/all, trim family, erase_all, pad vs definitional loops; string length %d, needle/drop-set length %d, replacement length 0..2' % (n, m),
